@@ -119,6 +119,9 @@ def pattern_addr(rng):
             nd = rng.choice([0, 0, 1, 2, 3, 4])
             groups.append("0" if nd == 0 else "%x" % rng.randrange(16 ** (nd - 1), 16 ** nd))
         return ":".join(groups)
+    if k < 0.63:
+        # octets written with leading zeros (read as decimal): the daemon's own text for them is the canonical one
+        return rng.choice(["", "", "0::ffff:", "0::"]) + ".".join(rng.choice(["%d", "%02d", "%03d"]) % o for o in (rng.choice([1, 10, 127, 192, 255]), rng.randrange(256), rng.randrange(256), rng.randrange(1, 256)))
     if k < 0.7:
         return "%d.%d.%d.%d" % (rng.choice([1, 10, 127, 192, 255]), rng.randrange(256), rng.randrange(256), rng.randrange(256))
     if k < 0.8:
